@@ -38,9 +38,11 @@ def native_obligations(prop="C08"):
     obs = c20.dyn_typed(prop, pfx, ["get", "set", "pop"], c08=True)
     obs += c20.dyn_generic(prop, pfx, with_all=False)        # remove_at, all kinds
     obs += c20.dyn_struct(prop, pfx, c08=True)
+    obs += c20.list_int(prop, pfx + ".list_int", only=c20.LIST_C08)
     keep = []
     for o in obs:
-        o["defines"]["VERIF_C08"] = 1
+        if "list_h" not in o["harness"]:
+            o["defines"]["VERIF_C08"] = 1
         # the struct element size plays no role in the index test: a small sample of the C20 size split is enough here
         if "VERIF_ESZ" in o["defines"] and o["defines"]["VERIF_ESZ"] not in (0, 8, 24, 16):
             continue
